@@ -83,8 +83,9 @@ fn sun_grid(cw: &mut CaseWriter, step: f64, rng: &mut Rng, samples_for_model: us
                     // sqrt(2 d) where the azimuth is +-90 degrees (the arcsine's vertical tangent); allow for that
                     let d_q = 3.0e-6 / rad(r.alt).cos().max(1e-3);
                     let cond = (d_q / rad(r.az).cos().abs().max(1e-12)).min((2.0 * d_q).sqrt()).to_degrees();
-                    let dz = (angdiff(p.azimuth as f64, r.az) - cond).max(0.0);
-                    if dz > 0.1 {
+                    let raw = angdiff(p.azimuth as f64, r.az);
+                    let dz = if raw.is_finite() { (raw - cond).max(0.0) } else { f64::NAN };
+                    if dz > 0.1 || !dz.is_finite() {
                         n_az_bad += 1;
                     }
                     if dz > worst_az.0 || !dz.is_finite() {
@@ -108,6 +109,42 @@ fn sun_grid(cw: &mut CaseWriter, step: f64, rng: &mut Rng, samples_for_model: us
             decl += step.min(23.45 / 4.0);
         }
         lat += step;
+    }
+    // the sun due east / west (azimuth exactly +-90 degrees: the arcsine's argument is +-1, where a rounding above 1 must not
+    // turn into NaN): for each latitude and declination the hour angle with cos(ha) = tan(decl) / tan(lat), and points next to it
+    {
+        let mut lat = -66.0f64;
+        while lat <= 66.0 {
+            let mut decl = -23.45f64;
+            while decl <= 23.45 {
+                let q = rad(decl).tan() / rad(lat).tan();
+                if lat.abs() > 0.5 && q.abs() < 0.999 {
+                    let ha0 = q.acos().to_degrees();
+                    for sgn in [-1.0f64, 1.0] {
+                        for off in [0.0f64, 1e-4, -1e-4, 1e-3, -1e-3, 1e-2, -1e-2, 0.05, -0.05] {
+                            let ha = sgn * ha0 + off;
+                            let r = sun_ref(decl, ha, lat);
+                            if r.alt > 1.0 && r.alt < 88.0 {
+                                n += 1;
+                                let p = sun_position(decl as f32, ha as f32, Location { latitude: lat as f32, longitude: 0.0, tz: 0 });
+                                let d_q = 3.0e-6 / rad(r.alt).cos().max(1e-3);
+                                let cond = (d_q / rad(r.az).cos().abs().max(1e-12)).min((2.0 * d_q).sqrt()).to_degrees();
+                                let raw = angdiff(p.azimuth as f64, r.az);
+                                let dz = if raw.is_finite() { (raw - cond).max(0.0) } else { f64::NAN };
+                                if dz > 0.1 || !dz.is_finite() {
+                                    n_az_bad += 1;
+                                }
+                                if dz > worst_az.0 || !dz.is_finite() {
+                                    worst_az = (if dz.is_finite() { dz } else { 999.0 }, json!({"lat": lat, "decl": decl, "ha": ha, "impl": p.azimuth, "ref": r.az, "alt": r.alt}));
+                                }
+                            }
+                        }
+                    }
+                }
+                decl += 0.35;
+            }
+            lat += 0.5;
+        }
     }
     cw.write(json!({"op": "noop", "label": "sun-grid", "kind": "sun-grid",
         "impl": {"n": n, "step": step, "worst_altitude": {"err": worst_alt.0, "at": worst_alt.1},
